@@ -10,9 +10,10 @@ import annmodel
 import core
 
 HOLDER_POOLS = {
-    "H1": ["Jane Doe", "Jürgen Müller <jm@example.com>", "ACME, Inc.", "Free Software Foundation Europe e.V. <https://fsfe.org>"],
+    "H1": ["Jane Doe", "Jürgen Müller <jm@example.com>", "ACME, Inc.", "Free Software Foundation Europe e.V. <https://fsfe.org>",
+           "Carmen Bianca Bakker", "(ACME) Holdings, Inc."],
     "H2": ["Example Org", "O'Reilly & Sons", "The foo-bar authors (see AUTHORS)", "山田 太郎"],
-    "H3": ["Someone Else", "Université de Nantes", "X.Org Foundation"],
+    "H3": ["Someone Else", "Université de Nantes", "X.Org Foundation", "cURL maintainers"],
 }
 CON_POOLS = {"C1": ["Alice Contributor", "Zoë B."], "C2": ["Bob Helper <bob@example.org>", "Team #7"]}
 
